@@ -44,4 +44,22 @@ CLAIMS = {
     },
 }
 
+CLAIMS.update({
+    "C06": {
+        "technique": "static analysis: protocol-frame extraction by abstract execution of both ends of each pipe (A9), multiplicity/ordering of registered output files vs proxy chunks, OrderedChunkWriter release rule, merge-completeness and additivity of every __iadd__ (taint from other.<attr> to self.<attr>), constructor/pickle signature agreement (A8)",
+        "text": "Decides the parts of 'multi-core = single-core' that are visible in the code shape: sender and receiver agree on frame layout and sentinels on the three pipes, each open_* call registers as many files as its proxy drains chunks and both lists are append-only and iterated in order, the ordered writer releases index k only after k-1 starting at the reader's first index, every statistics merge adds every tally from the same field of the other object, pickled objects restore exactly their constructor arguments, and the output/input format decisions are independent of the runner. NOT decided: the schedule quantifier itself (interleavings of reader, workers and main; needs a model checker), byte identity of files, liveness.",
+        "design_ref": "DESIGN.md section 5, C06",
+    },
+    "C19": {
+        "technique": "static analysis: path-exhaustive abstract execution of the writer factories comparing the format information reaching the proxied and the direct writer (A7), dataflow of the input format on the serial and the worker path, decision tables for --fasta and interleaving, builder interpreter for writer layouts",
+        "text": "Decides that the FASTA/FASTQ decision for every output is made once from the path string (compression suffix stripped) / --fasta / has_qualities() before any file object exists and reaches both writer kinds unchanged, that --fasta only acts on standard output, that both runners parse the input with the content-detected format through the same opener, and the interleaving flags of inputs and of every paired writer. Not decided: codec round trips, multi-member gzip, FASTA/FASTQ record equivalence (library and runtime).",
+        "design_ref": "DESIGN.md section 5, C19",
+    },
+    "C20": {
+        "technique": "static analysis: path-exhaustive abstract execution of the five registration sites and of every add_match body (A1/A7), slice algebra for the adjacent base (A4), exhaustiveness of _collect_modifier over tally-keeping modifier classes (A6), sibling agreement of the ErrorRanges call sites",
+        "text": "Decides that matches are registered exactly once after the orientation/pair decision on the statistics object of their own adapter and on the right info, that every add_match tallies errors[removed length][errors] (+ adjacent base as a one-base slice, '' when unknown) on the right end, that every modifier class keeping tallies is collected into the slot of its mate, and that text and JSON report build the allowed-error table from effective_length and max_error_rate. Not decided: the allowed-errors arithmetic itself (a numeric defect is recorded in DESIGN.md).",
+        "design_ref": "DESIGN.md section 5, C20",
+    },
+})
+
 PENDING_REASON = "no static rule for this property is registered in this revision of /verif (see DESIGN.md section 7 for what is out of reach)"
